@@ -1,5 +1,7 @@
 import RV.C19.LemmasOps
 import RV.C19.LemmasTotal
+import RV.C19.LemmasG
+import RV.C19.LemmasN3
 /-
   C19 — "An RDF Collection behaves like the Python list it represents."
 
@@ -410,6 +412,83 @@ theorem history_refines_witness : ¬ Statement_history_refines := by
   revert h
   unfold Out.agrees
   decide
+
+/-! ### Round g (d): exactly where `__setitem__` deviates from the list (C19-K1 characterised) -/
+
+/-- `c[i] = x` answers what the list answers for every integer index except exactly `i = len(c)`. -/
+def Statement_setitem_deviates_iff : Prop :=
+  ∀ (s : St) (h : Term) (xs : List Term) (i : Int) (x : Term), WF s h → asList s.g h = .ok xs →
+    (((step h s (.setItem i x)).2).agrees (specStep xs (.setItem i x)).2 ↔ i ≠ (xs.length : Int))
+
+/-- What `c[len(c)] = x` does instead of raising: it is accepted, writes the single triple
+    `(rdf:nil | the empty head) rdf:first x`, from then on the collection *reads* as `xs ++ [x]`
+    (`Graph.items` walks through rdf:nil), and the graph no longer holds a well-formed chain. -/
+def Statement_setitem_at_len_effect : Prop :=
+  ∀ (s : St) (h : Term) (xs : List Term) (x : Term), WF s h → asList s.g h = .ok xs →
+    (step h s (.setItem (xs.length : Int) x)).2 = .unit ∧
+      (step h s (.setItem (xs.length : Int) x)).1.g = gset s.g (if xs = [] then h else NIL) FIRST x ∧
+      iter (step h s (.setItem (xs.length : Int) x)).1.g h = .ok (xs ++ [x]) ∧
+      ¬ WF (step h s (.setItem (xs.length : Int) x)).1 h
+
+theorem setitem_at_len_effect : Statement_setitem_at_len_effect := by
+  intro s h xs x ⟨ps, inv⟩ ha
+  have hxs := asList_of_inv inv ha
+  subst hxs
+  obtain ⟨h1, h2, h3⟩ := inv.setItem_at_len x
+  have hc : cellAtLen h ps = if ps.map Prod.snd = [] then h else NIL := by
+    unfold cellAtLen
+    cases ps <;> simp
+  simp only [List.length_map, step, h1, gOf]
+  refine ⟨trivial, by rw [hc], h2, ?_⟩
+  rintro ⟨ps', inv'⟩
+  exact h3 ⟨ps', inv'.chain⟩
+
+theorem setitem_deviates_iff : Statement_setitem_deviates_iff := by
+  intro s h xs i x wf ha
+  constructor
+  · intro hag e
+    subst e
+    have h1 := (setitem_at_len_effect s h xs x wf ha).1
+    rw [h1] at hag
+    have hp : pyIndex xs.length (xs.length : Int) = none := by
+      unfold pyIndex
+      rw [if_pos (by omega), if_neg (by omega)]
+    simp only [specStep, hp] at hag
+    rcases hag with hag | ⟨hag, _⟩ <;> cases hag
+  · intro hne
+    exact (coll_refines_partial s h xs (.setItem i x) wf ha (by simpa [isSetAtLen] using hne)).1
+
+/-- non-vacuity / concrete instance: `c[1] = 11` on `[10]` reads as `[10, 11]` afterwards -/
+example : iter (step 100 ⟨exG1, 1000⟩ (.setItem 1 11)).1.g 100 = .ok [10, 11] := rfl
+
+/-! ### Round g (b): the text of `Collection.n3()` means the list -/
+
+/-- On a well-formed chain denoting `xs`, `c.n3()` is the text `"( " + " ".join(member texts) + " )"` of
+    exactly the members of `xs` in order, and a reader of N3 list syntax (`readN3`: skip blanks, stop at
+    `)`, otherwise lex one term) gets `xs` back from it — for every term-level codec `tok`/`lex` that is
+    self-delimiting in front of a blank (`LexOK`; the members' own `n3()` is not part of this property).
+    On a cyclic chain `n3()` raises ValueError like the iteration it is built on. -/
+def Statement_n3_means_list : Prop :=
+  ∀ (tok : Term → List Char) (lex : List Char → Option (Term × List Char)), LexOK tok lex →
+    (∀ (s : St) (h : Term) (xs : List Term), WF s h → asList s.g h = .ok xs →
+      n3 tok s.g h = .ok (n3Text tok xs) ∧ readN3 lex (n3Text tok xs) = some xs) ∧
+    (∀ (g : Graph) (h : Term), Endless g h → n3 tok g h = .error .valueError)
+
+theorem n3_means_list : Statement_n3_means_list := by
+  intro tok lex ok
+  refine ⟨?_, ?_⟩
+  · intro s h xs ⟨ps, inv⟩ ha
+    have hxs := asList_of_inv inv ha
+    subst hxs
+    exact ⟨by simp only [n3, inv.chain.iter], readN3_n3Text ok _⟩
+  · intro g h he
+    simp [n3, iter, items_endless he]
+
+/-- non-vacuity: the unary codec is self-delimiting; `( aaa a aaa )` reads back as `[2, 0, 2]`, `(  )` as `[]` -/
+example : LexOK tokU lexU := lexOK_unary
+example : n3Text tokU [2, 0, 2] = "( aaa a aaa )".toList := by decide
+example : readN3 lexU "( aaa a aaa )".toList = some [2, 0, 2] := by decide
+example : n3Text tokU [] = "(  )".toList ∧ readN3 lexU "(  )".toList = some [] := by decide
 
 /-! ### Non-vacuity: a three-item list with a duplicate and a falsy member (12 = `Literal(0)`) -/
 
